@@ -140,8 +140,8 @@ pub fn event(op: &Value, res: Value, allocs: u64, maxalloc: u64) -> Value {
     let mut m = op.as_object().cloned().unwrap_or_default();
     m.remove("exp");
     m.insert("res".into(), res);
-    m.insert("allocs".into(), json!(allocs));
-    m.insert("maxalloc".into(), json!(maxalloc));
+    m.insert("allocs".into(), json!(allocs.min(i32::MAX as u64)));
+    m.insert("maxalloc".into(), json!(maxalloc.min(i32::MAX as u64)));
     Value::Object(m)
 }
 
